@@ -31,7 +31,7 @@ Definition obs_allow (L : layout) (w : world) (t : addr) : list N :=
                                    | Some tk => opt_code (t_allow tk o s) end) (pair_ids L)) (users L).
 Definition obs_pair (w : world) (p : addr) : list N :=
   match w_pairs w p with
-  | None => repeat 0 27%nat
+  | None => repeat 0 35%nat
   | Some ps =>
       [1] ++ asset_code (p_a0 ps) ++ asset_code (p_a1 ps) ++
       [p_d0 ps; p_d1 ps; p_lp ps; p_min0 ps; p_min1 ps; p_comm ps; N.of_nat (length (p_wl ps)); wl_comb 1 (p_wl ps)] ++
@@ -39,6 +39,11 @@ Definition obs_pair (w : world) (p : addr) : list N :=
        | None => repeat 0 14%nat
        | Some r => [1; f_pair r; f_lp r] ++ asset_code (f_a0 r) ++ asset_code (f_a1 r) ++
                    [f_d0 r; f_d1 r; f_min0 r; f_min1 r; f_comm r; N.of_nat (length (f_wl r)); wl_comb 1 (f_wl r)]
+       end) ++
+      (* the same lookup with the two assets in the other order *)
+      (match reg_find (w_reg w) (p_a1 ps) (p_a0 ps) with
+       | None => repeat 0 8%nat
+       | Some r => [1; f_pair r] ++ asset_code (f_a0 r) ++ asset_code (f_a1 r) ++ [f_d0 r; f_d1 r]
        end)
   end.
 
@@ -76,7 +81,7 @@ Definition off_allow (L : layout) : N := off_tokens L + n_tokens_all L * tok_str
 Definition allow_stride (L : layout) : N := l_users L * l_maxpairs L.
 Definition off_fac (L : layout) : N := off_allow L + n_tokens_all L * allow_stride L.
 Definition off_pairs (L : layout) : N := off_fac L + 1 + l_denoms L.
-Definition PAIR_STRIDE : N := 27.
+Definition PAIR_STRIDE : N := 35.
 
 Definition sget (s : list N) (i : N) : N := nth (N.to_nat i) s 0.
 Definition s_bank L s (a : addr) (d : denom) : N := sget s (acct_pos L a * l_denoms L + d).
@@ -90,7 +95,8 @@ Definition s_asset_bal L s (a : asset) (who : addr) : N :=
   match a with ANative d => s_bank L s who d | AToken t => s_bal L s t who end.
 (* pair fields: 0 exists, 1-2 a0, 3-4 a1, 5 d0, 6 d1, 7 lp, 8 min0, 9 min1, 10 comm, 11 |wl|, 12 wl comb,
    13 record found, 14 rec pair, 15 rec lp, 16-17 rec a0, 18-19 rec a1, 20 rec d0, 21 rec d1,
-   22 rec min0, 23 rec min1, 24 rec comm, 25 rec |wl|, 26 rec wl comb *)
+   22 rec min0, 23 rec min1, 24 rec comm, 25 rec |wl|, 26 rec wl comb,
+   reverse-order lookup: 27 found, 28 pair, 29-30 a0, 31-32 a1, 33 d0, 34 d1 *)
 Definition s_pair_asset L s p (i : N) : asset :=
   let k := s_pair L s p (1 + 2 * i) in let v := s_pair L s p (2 + 2 * i) in
   if k =? 0 then ANative v else AToken v.
